@@ -491,6 +491,13 @@ impl Ctx {
         } else {
             op
         };
+        // a draining / extracting iterator that is LEAKED (`mem::forget`) instead of dropped, now and then
+        let op = if matches!(op, Op::Drain(..) | Op::ExtractIf(_)) && self.rng.chance(1, 4) {
+            self.count(if matches!(op, Op::Drain(..)) { "route:drain, iterator leaked" } else { "route:extract_if, iterator leaked" });
+            Op::Alt(6, Box::new(op))
+        } else {
+            op
+        };
         if matches!(op, Op::Alt(5, _)) {
             // the semantic predicate answers by itself; what it answered is recorded during the run
             oracle.clear();
@@ -672,7 +679,7 @@ impl Ctx {
                 let rhs = post_len as u64 + dropped_n + stashed_n;
                 if rhs > lhs {
                     self.oracle("C06", format!("zst {} `{optext}`: {} values accounted for but only {} existed (a value was dropped twice or invented)", spec.kind.tok(), rhs, lhs));
-                } else if rhs < lhs && exit != "panic:drop" {
+                } else if rhs < lhs && exit != "panic:drop" && !matches!(&step.op, Op::Alt(6, _)) {
                     self.oracle("C06", format!("zst {} `{optext}`: {} values existed but only {} are owned/dropped/handed out afterwards (lost)", spec.kind.tok(), lhs, rhs));
                 }
             } else {
@@ -697,7 +704,8 @@ impl Ctx {
                         break;
                     }
                 }
-                if exit != "panic:drop" {
+                // (what is still inside a LEAKED iterator's range may leak: only "nothing twice" is asked for)
+                if exit != "panic:drop" && !matches!(&step.op, Op::Alt(6, _)) {
                     for id in &universe {
                         if !seen.contains_key(id) {
                             self.oracle("C06", format!("{} `{optext}` from ids={}: value {id} is lost: neither owned, nor dropped, nor handed out (after: ids={} drops={} handed-out={})", spec.kind.tok(), csv(&pre), csv(&post), csv(&drops), csv(&esc)));
@@ -861,7 +869,7 @@ impl Ctx {
                             }
                         }
                         let sargs = take_std_args();
-                        let has_cb = matches!(&step.op, Op::Retain | Op::DedupBy | Op::DedupByKey | Op::ExtractIf(_) | Op::PopIf | Op::MapInPlace) || matches!(&step.op, Op::Alt(4 | 5, _));
+                        let has_cb = matches!(&step.op, Op::Retain | Op::DedupBy | Op::DedupByKey | Op::ExtractIf(_) | Op::PopIf | Op::MapInPlace) || matches!(&step.op, Op::Alt(4 | 5, _)) || matches!(&step.op, Op::Alt(6, i) if matches!(**i, Op::ExtractIf(_)));
                         if has_cb && !zst && spec.kind != Kind::Rev && iargs != sargs {
                             self.oracle("C08", format!("{} `{optext}` from ids={}: the callback was handed {} — std::vec::Vec hands its callback {}", spec.kind.tok(), csv(&pre), args_text(&iargs), args_text(&sargs)));
                         }
